@@ -98,6 +98,12 @@ def _one(tl, db, name, d, boxed=True):
         rec['back'] = {'v': tlkit.to_spec(db, name, back), 'used': used}
     except Exception as e:
         rec['back'] = {'err': type(e).__name__}
+        return rec
+    # second generation: what the parser returned (labelled with '@type' throughout), serialised again, is the same encoding
+    try:
+        rec['again'] = {'bytes': list(tl.serialize(tl.get_by_name(name), back, boxed=boxed))}
+    except Exception as e:
+        rec['again'] = {'err': type(e).__name__}
     return rec
 
 
@@ -215,8 +221,8 @@ def generate(tier, seed, ctx):
             out.append(one(tl, db, name, g.ctor(name, hints={fn: n}), boxed=True))
     # BlockIdExt helpers
     for _ in range(40 if q else 1500):
-        wc = rng.choice([-1, 0, 1, 2 ** 31 - 1, -2 ** 31, rng.randint(-2 ** 31, 2 ** 31 - 1)])
-        shard = rng.choice([-2 ** 63, 2 ** 63 - 1, 0, -1, rng.randint(-2 ** 63, 2 ** 63 - 1)])
+        wc = rng.choice([-1, -2, 0, 1, 2 ** 31 - 1, -2 ** 31, rng.randint(-2 ** 31, 2 ** 31 - 1)])
+        shard = rng.choice([-2 ** 63, 2 ** 63 - 1, 0, -1, -2 ** 62, -2, rng.randint(-2 ** 63, 2 ** 63 - 1)])
         seqno = rng.choice([0, 1, 2 ** 31 - 1, -1, -2 ** 31, rng.randint(0, 2 ** 31 - 1), rng.randint(-2 ** 31, -1)])   # TL int: signed 32-bit
         root, file = bytes(rng.getrandbits(8) for _ in range(32)), bytes(rng.getrandbits(8) for _ in range(32))
         rec = {'op': 'blockid', 'workchain': big(wc), 'shard': big(shard), 'seqno': big(seqno), 'root': list(root), 'file': list(file)}
@@ -237,6 +243,16 @@ def generate(tier, seed, ctx):
             rec['rt_dict'] = int(b2 == b and b2.to_dict() == d and BlockIdExt(wc, shard, seqno, root.hex(), file.hex()) == b)
         except Exception:
             rec['rt_dict'] = 0
+        # ids that differ in one field only are different ids - also where the integers' own hashes coincide (-1 / -2, values
+        # 2^61 - 1 apart) - and occupy two dictionary slots
+        try:
+            near = [BlockIdExt(wc2, shard, seqno, root, file) for wc2 in ({-1: -2, -2: -1}.get(wc, wc + 1),)] + \
+                   [BlockIdExt(wc, shard, s2, root, file) for s2 in ({-1: -2, -2: -1}.get(seqno, seqno ^ 1),)] + \
+                   [BlockIdExt(wc, sh2, seqno, root, file) for sh2 in ({-2 ** 62: -2 ** 61, -2 ** 63: -4, -1: -2}.get(shard, shard ^ (1 << 60)),)] + \
+                   [BlockIdExt(wc, shard, seqno, root[:-1] + bytes([root[-1] ^ 1]), file)]
+            rec['distinct'] = int(all(x != b and b != x and not (x == b) and len({b: 1, x: 2}) == 2 for x in near))
+        except Exception:
+            rec['distinct'] = 0
         try:
             twin = BlockIdExt(wc, shard, seqno, bytes(root), bytes(file))
             rec['hashable'] = int(isinstance(hash(b), int))
